@@ -233,6 +233,19 @@ func (vc *FuncVC) ghostAssign(st *State, env *SpecEnv, gs []*GhostAssign) {
 			savedOld := env.old
 			env.old = pre
 			t, err := env.Bool(ga.RHS)
+			if err == nil && ga.Cond != nil {
+				// conditional choice: unchanged when the condition (evaluated before the step) is false
+				penv := *env
+				penv.heaps = pre
+				c, cerr := penv.Bool(ga.Cond)
+				nv, e1 := env.Value(ga.LHS)
+				ov, e2 := penv.Value(ga.LHS)
+				if cerr != nil || e1 != nil || e2 != nil {
+					err = fmt.Errorf("conditional ghost choice: %v %v %v", cerr, e1, e2)
+				} else {
+					t = fmt.Sprintf("(ite %s %s %s)", c, t, eqVals(nv.V, ov.V))
+				}
+			}
 			env.old = savedOld
 			if err != nil {
 				vc.errs = append(vc.errs, fmt.Sprintf("%s ghost %s: %v", vc.name, ga.Src, err))
